@@ -59,7 +59,8 @@ CONF = {
                 monitor_only=[("sessionfaulty", 400, 4000), ("faultyctx", 250, 2500), ("faultysync", 250, 2500), ("faultyalways", 400, 4000)],
                 big=[("session", 300, 3000)], fresh=True),
     "C12": dict(prefixes=("C12.",), builds=("pure",),
-                model=[("dedup", 400, 2500), ("dedupdirty", 500, 3500), ("dedupsync", 250, 1500), ("dedupself", 500, 2500)],
+                model=[("dedup", 400, 2500), ("dedupdirty", 500, 3500), ("dedupsync", 250, 1500), ("dedupself", 500, 2500),
+                       ("dedupcatch", 300, 2500)],
                 big=[("dedupdirty", 500, 2500)]),
 }
 
@@ -242,10 +243,13 @@ def main():
             cov["enumerated_family"] = "runaway recursion with 1-3 readers blocked on a pending batch, then a second computation: %d programs, all schedules" % len(en)
         if pid == "C12":
             if tier == "quick":
-                en = plang.enum_dedup(3, (1,), 2) + plang.enum_dedup(3, (2,), 2, bind="inst1", key=2, spell0=2)
+                en = plang.enum_dedup(3, (1,), 2) + plang.enum_dedup(3, (2,), 2, bind="inst1", key=2, spell0=2) + \
+                    plang.enum_dedup(2, (1, 2), 2, body_kind=2, catching=True)
             else:
                 en = plang.enum_dedup(3, (1, 2), 2) + plang.enum_dedup(2, (1, 2), 3) + plang.enum_dedup(3, (2,), 2, bind="inst1", key=2, spell0=2) + \
-                    plang.enum_dedup(3, (1,), 2, bind="inst2", key=2, spell0=5) + plang.enum_dedup(3, (1,), 2, bind="static")
+                    plang.enum_dedup(3, (1,), 2, bind="inst2", key=2, spell0=5) + plang.enum_dedup(3, (1,), 2, bind="static") + \
+                    plang.enum_dedup(3, (1, 2), 2, body_kind=2, catching=True) + plang.enum_dedup(2, (1, 2), 2, body_kind=2) + \
+                    plang.enum_dedup(2, (2,), 2, catching=True)
             fam += [("enum_dedup", p) for p in en]
             cov["enumerated_family"] = "root yields [D, actor..]; every actor sequence over {wait, call, dirty+call}: %d programs, all schedules" % len(en)
         progs = [p for _, p in fam]
